@@ -617,7 +617,10 @@ impl World {
         let mut b = Pool::<Mgr>::builder(mgr);
         let pt = Timeouts { wait: cfg.pt[0].dur(), create: cfg.pt[1].dur(), recycle: cfg.pt[2].dur() };
         b = match style {
+            0 if !cfg.lifo && cfg.max % 2 == 0 => b.config(PoolConfig { max_size: cfg.max, timeouts: pt, ..PoolConfig::new(cfg.max) }),
             0 => b.config(PoolConfig { max_size: cfg.max, timeouts: pt, queue_mode: mode }),
+            // Fifo is the documented default: this style relies on it instead of naming it
+            1 if !cfg.lifo => b.max_size(cfg.max).timeouts(pt),
             1 => b.max_size(cfg.max).queue_mode(mode).timeouts(pt),
             2 => b.create_timeout(pt.create).queue_mode(mode).recycle_timeout(pt.recycle).max_size(cfg.max).wait_timeout(pt.wait),
             _ => b.queue_mode(mode).timeouts(Timeouts::new()).max_size(cfg.max).wait_timeout(pt.wait).create_timeout(pt.create).recycle_timeout(pt.recycle),
